@@ -3,8 +3,9 @@ import LemoModel.Rlp
 import LemoModel.Base26
 import LemoModel.RlpSchema
 import LemoModel.RlpCustom
+import LemoModel.RlpAccount
 namespace Driver.C14
-open LemoModel LemoModel.Rlp LemoModel.RlpSchema LemoModel.RlpCustom Driver
+open LemoModel LemoModel.Rlp LemoModel.RlpSchema LemoModel.RlpCustom LemoModel.RlpAccount Driver
 
 def hexVal (c : Char) : Option Nat :=
   if '0' ≤ c ∧ c ≤ '9' then some (c.toNat - 48)
@@ -78,6 +79,100 @@ def schemaByName : String → Option Schema
   | "rlpEvent" => some eventSchema
   | "AssetEquity" => some assetEquitySchema
   | "AssetFields" => some (.struct assetFields)
+  | "GetBlocksData" => some getBlocksSchema
+  | _ => none
+
+/-- layout of the wire struct `rlpAccountData` as the model's decoder reads it (`?map` = the custom Profile codec) -/
+def acctLayout : String :=
+  let sh := showSchema
+  "struct[" ++ ",".intercalate [sh address, sh .big, sh hash, sh hash, sh hash, sh hash, sh hash, sh (.listOf hash), sh address,
+    "struct[" ++ sh .big ++ ",?map]", sh (.uint 32), sh (.listOf (.struct [.uint 32, .uint 32, .uint 32])),
+    sh (.listOf (.struct [.fixed 20, .uint 8]))] ++ "]"
+
+/-! account values on the op lines: `nil` = Go nil, `{}` / `[]` = empty map / slice -/
+
+def showOptNat : Option Nat → String
+  | none => "nil"
+  | some n => toString n
+
+def showProf : Option (List KV) → String
+  | none => "nil"
+  | some [] => "{}"
+  | some ps => ",".intercalate (ps.map (fun p => showHex p.1 ++ ":" ++ showHex p.2))
+
+def showRecs : Option (List Rec) → String
+  | none => "nil"
+  | some [] => "{}"
+  | some rs => ",".intercalate (rs.map (fun r => s!"{r.1}.{r.2.1}.{r.2.2}"))
+
+def showSigners : Option (List Signer) → String
+  | none => "nil"
+  | some [] => "[]"
+  | some ss => ",".intercalate (ss.map (fun x => showHex x.1 ++ "." ++ toString x.2))
+
+def showAcct (v : AccountV) : String :=
+  s!"addr={showHex v.address} bal={showOptNat v.balance} code={showHex v.codeHash} sr={showHex v.storageRoot} " ++
+  s!"acr={showHex v.assetCodeRoot} air={showHex v.assetIdRoot} er={showHex v.equityRoot} vf={showHex v.voteFor} " ++
+  s!"votes={showOptNat v.votes} prof={showProf v.profile} recs={showRecs v.records} sig={showSigners v.signers}"
+
+def parseOptNat (s : String) : Option (Option Nat) :=
+  if s == "nil" then some none else s.toNat?.map some
+
+def allSome {α : Type} : List (Option α) → Option (List α)
+  | [] => some []
+  | none :: _ => none
+  | some a :: r => (allSome r).map (a :: ·)
+
+/-- the pairs in ANY order: the Go map is built by assignment -/
+def parseProf (s : String) : Option (Option (List KV)) :=
+  if s == "nil" then some none
+  else if s == "{}" then some (some [])
+  else
+    (allSome ((s.splitOn ",").map (fun kv =>
+      match kv.splitOn ":" with
+      | [k, v] =>
+        match parseHex k, parseHex v with
+        | some kb, some vb => some (kb, vb)
+        | _, _ => none
+      | _ => none))).map (fun ps => some (ps.foldl (fun m p => insertKV p m) []))
+
+/-- the records in the order of the op line: the iteration order handed to the encoder -/
+def parseRecs (s : String) : Option (Option (List Rec)) :=
+  if s == "nil" then some none
+  else if s == "{}" then some (some [])
+  else
+    (allSome ((s.splitOn ",").map (fun r =>
+      match (r.splitOn ".").map String.toNat? with
+      | [some t, some v, some h] => some (t, v, h)
+      | _ => none))).map some
+
+def parseSigners (s : String) : Option (Option (List Signer)) :=
+  if s == "nil" then some none
+  else if s == "[]" then some (some [])
+  else
+    (allSome ((s.splitOn ",").map (fun r =>
+      match r.splitOn "." with
+      | [a, w] =>
+        match parseHex a, w.toNat? with
+        | some ab, some wn => some (ab, wn)
+        | _, _ => none
+      | _ => none))).map some
+
+/-- `acctenc`: the account built from the fields of the line, encoded with the records enumerated in the line's order -/
+def acctEnc (w : List String) : Option String :=
+  match w with
+  | [addr, bal, code, sr, acr, air, er, vf, votes, prof, recs, sig] =>
+    match parseHex addr, parseOptNat bal, parseHex code, parseHex sr, parseHex acr, parseHex air, parseHex er,
+          parseHex vf, parseOptNat votes, parseProf prof, parseRecs recs, parseSigners sig with
+    | some addr, some bal, some code, some sr, some acr, some air, some er, some vf, some votes, some prof, some ord,
+      some sig =>
+      let v : AccountV := { address := addr, balance := bal, codeHash := code, storageRoot := sr, assetCodeRoot := acr,
+                            assetIdRoot := air, equityRoot := er, voteFor := vf, votes := votes, profile := prof,
+                            records := ord.map recsToMap, signers := sig }
+      some (match encodeAccountWith sortRecs (ord.getD []) v with
+            | some it => showHex (encode it)
+            | none => "err")
+    | _, _, _, _, _, _, _, _, _, _, _, _ => none
   | _ => none
 
 /-- the code as it is: every decoder of the typed layer with the strictness fixes (`fx = true`) -/
@@ -119,6 +214,15 @@ def typedRe (name : String) (b : List UInt8) : Option String :=
     match decode b with
     | .error _ => some "err"
     | .ok it => fin ((decodeLogSlice fx it).bind encodeLogSlice)
+  | "accountdata" =>
+    match decode b with
+    | .error _ => some "err"
+    | .ok it => fin ((decodeAccount it).bind encodeAccount)
+  | "blocksmsg" =>
+    match decode b with
+    | .error _ => some "err"
+    | .ok it => fin ((decodeBlocks emptyTrieHash it).bind (encodeBlocks emptyTrieHash))
+  | "getblocks" => plain getBlocksSchema
   | _ => none
 
 def step (s : Unit) (w : List String) : Unit × String :=
@@ -159,10 +263,19 @@ def step (s : Unit) (w : List String) : Unit × String :=
     match parseHex h with
     | some b => (s, (typedRe name b).getD "bad-op")
     | none => (s, "bad-op")
+  | ["schema", "rlpAccountData"] => (s, acctLayout)
   | ["schema", name] =>
     match schemaByName name with
     | some sc => (s, showSchema sc)
     | none => (s, "bad-op")
+  | ["acctval", h] =>
+    match parseHex h with
+    | some b =>
+      (s, match decodeAccountBytes b with
+          | some v => "ok " ++ showAcct v
+          | none => "err")
+    | none => (s, "bad-op")
+  | "acctenc" :: rest => (s, (acctEnc rest).getD "bad-op")
   | ["logdec", n] =>
     match n.toNat? with
     | some n =>
